@@ -164,6 +164,9 @@ func setup() *toolchain {
 		_ = os.WriteFile(filepath.Join(dir, "go.sum"), sum, 0o644)
 		_ = os.MkdirAll(filepath.Join(dir, "customenc"), 0o755)
 		_ = os.WriteFile(filepath.Join(dir, "customenc", "enc.go"), []byte(customEnc), 0o644)
+		// the same library under an import path whose last element is "proto", as many encoding packages are called
+		_ = os.MkdirAll(filepath.Join(dir, "customlib", "proto"), 0o755)
+		_ = os.WriteFile(filepath.Join(dir, "customlib", "proto", "enc.go"), []byte(strings.Replace(customEnc, "package customenc", "package proto", 1)), 0o644)
 	})
 	return &tc
 }
@@ -210,6 +213,9 @@ func generate(t *toolchain, f FileSpec) (out genOutcome) {
 	}
 	if f.Protolib == "gogo" {
 		param = "protolib=github.com/gogo/protobuf"
+	}
+	if f.Protolib == "custom_proto" {
+		param = "protolib=verifgen/customlib/proto"
 	}
 	if !f.JSON {
 		if param != "" {
